@@ -44,8 +44,18 @@ CONFIG = {
                       "and all byte strings. The model is tied to the Go code by executing both on the same operations and by direct "
                       "round-trip/canonical/reuse oracles on the implementation.",
         "level_note": "Trusted: Lean kernel, the three standard axioms, the harness; x/crypto cryptobyte and go-hpke are modelled "
-                      "(read/add semantics restated in Model/Codec.lean; HPKE public-key validity is an oracle parameter). The tie is by execution (sampled).",
-        "trusted_base": COMMON_TB + ["cryptobyte read/build semantics as restated in Model/Codec.lean", "go-hpke public-key validity (oracle column)"],
+                      "(read/add semantics restated in Model/Codec.lean; HPKE public-key validity is an oracle parameter). Two ties: "
+                      "(1) for the fixed-layout structures (Token and its four decoders, TokenRequest types 1, 2, 3, the type-3 inner "
+                      "request) /verif/extract/cmd/wirefacts extracts on every run the sequence of cryptobyte calls of each Marshal / "
+                      "Unmarshal (field names, widths, tags, emptiness and trailing-data checks, cache reset/use) into "
+                      "Generated/WireFacts.lean, and Proofs/WireFacts.lean proves each sequence, interpreted by Model/WireEv.lean, equal to "
+                      "the codec of Model/Structs.lean; any other call, loop or statement kind in those functions is a broken tie. "
+                      "(2) for every structure (incl. TokenChallenge, type 5, batches, EncapKey, which are not extracted) the correspondence "
+                      "stream and the direct oracles (by execution, sampled).",
+        "trusted_base": COMMON_TB + ["cryptobyte read/build semantics as restated in Model/Codec.lean", "go-hpke public-key validity (oracle column)",
+                                     "the meaning given to the extracted cryptobyte calls in Model/WireEv.lean"],
+        "extractors": [{"name": "wirefacts", "out": "WireFacts.lean"}],
+        "extra_modules": ["PatVerif.Proofs.WireFacts"],
         "assumptions": ["byte strings shorter than 2^31", "HPKE KEM table of go-hpke as read from its source (ids 0x10,0x12,0x20,0x21,0xFFFE,0xFFFF)"],
         "contradicts": "PatVerif.Props.C04",
     },
